@@ -43,6 +43,14 @@ def headers_model(run):
     for cfg in ("code_leak", "pername"):
         neg = core.tlc("mc/MC_Headers.tla", f"mc/MC_Headers_{cfg}.cfg", workers=2, timeout=900, xmx="4g", expect_violation=True)
         run.cov.setdefault("header_design_variants_refuted", {})[cfg] = neg.violated
+    # spec/Histories.tla: where state that outlives a compilation may live; only "per_call" makes the output a function of the input
+    h = core.tlc("Histories.tla", "mc/MC_Histories_per_call.cfg", workers=2, timeout=300)
+    run.add_tlc(h, "Histories.tla: OutIsFunctionOfInput for every history of 3 compilations on 2 threads, resources built per call")
+    for d in ("process_once", "thread_memo"):
+        n = core.tlc("Histories.tla", f"mc/MC_Histories_{d}.cfg", workers=2, timeout=300, expect_violation=True)
+        run.cov.setdefault("negative_models_refuted", {})[f"histories_{d}"] = n.violated
+    # ... and repeating an input inside one process cannot show a write-once table: hence the fresh-process histories of the harness
+    core.tlc("Histories.tla", "mc/MC_Histories_process_once_repeat.cfg", workers=2, timeout=300)
 
 
 def check(tier):
